@@ -69,6 +69,16 @@ type IRtpUnpackerProtocol interface {
 //		  假如sps和pps是一个stapA包，则合并结果为一个AvPacket。
 type OnAvPacket func(pkt base.AvPacket)
 
+// rtpTimestamp2Ms 将rtp时间戳转换为毫秒
+//
+// 注意，clockRate来自对端的sdp，可能不是1000的整数倍（比如44100），也可能是非法的值
+func rtpTimestamp2Ms(timestamp uint32, clockRate int) int64 {
+	if clockRate <= 0 {
+		return int64(timestamp)
+	}
+	return int64(uint64(timestamp) * 1000 / uint64(clockRate))
+}
+
 // DefaultRtpUnpackerFactory 目前支持AVC，HEVC和AAC MPEG4-GENERIC，业务方也可以自己实现IRtpUnpackerProtocol，甚至是IRtpUnpackContainer
 func DefaultRtpUnpackerFactory(payloadType base.AvPacketPt, clockRate int, maxSize int, onAvPacket OnAvPacket) IRtpUnpacker {
 	nazalog.Debugf("DefaultRtpUnpackerFactory. type=%d, clockRate=%d, maxSize=%d", payloadType, clockRate, maxSize)
